@@ -116,10 +116,10 @@ theorem C12.pydict_overlap_override_witness :
 schemas and rejects otherwise) -/
 theorem C12.append_is_bag_concat (lk rk ls rs : List Col) (L R : Table) (order : List Key) :
     PyDictMerge.merge .append lk rk L R order = Rel.append L R ∧
-    TableEq (PandasMerge.merge .append lk rk ls rs L R) (Rel.append L R) ∧
+    (∃ out, PandasMerge.merge .append lk rk ls rs L R = .ok out ∧ TableEq out (Rel.append L R)) ∧
     (ls = rs → ArrowMerge.merge .append lk rk ls rs L R = .ok (Rel.append L R)) ∧
     (ls ≠ rs → ∃ e, ArrowMerge.merge .append lk rk ls rs L R = .error e) := by
-  refine ⟨rfl, pandas_concat_tableEq ls rs L R, ?_, ?_⟩
+  refine ⟨rfl, ⟨_, rfl, pandas_concat_tableEq ls rs L R⟩, ?_, ?_⟩
   · intro h; simp [ArrowMerge.merge, h, Rel.append]
   · intro h; exact ⟨"Schemas of the tables do not match for append operation.", by simp [ArrowMerge.merge, h]⟩
 
@@ -140,7 +140,7 @@ theorem C12.pydict_union_witness :
 
 /-- pandas: `drop_duplicates` after `concat` is the spec's union of the null-padded tables -/
 theorem C12.pandas_union_is_dedup (lk rk ls rs : List Col) (L R : Table) :
-    PandasMerge.merge .union lk rk ls rs L R = dedup (PandasSem.concat ls rs L R) := rfl
+    PandasMerge.merge .union lk rk ls rs L R = .ok (dedup (PandasSem.concat ls rs L R)) := rfl
 
 /-- pyarrow: union is rejected for every input -/
 theorem C12.arrow_union_unimplemented (lk rk ls rs : List Col) (L R : Table) :
@@ -205,13 +205,15 @@ theorem C12.null_keys_never_match (lk rk : List Col) (l r : Row) (h : noNull (ke
 of `pd.merge` from the relational join are null keys matching each other and the `_x` / `_y` renaming -/
 theorem C12.pandas_sem_eq_spec_partial (t : JoinType) (lk rk ls rs : List Col) (L R : Table)
     (ht : t = .inner ∨ t = .left ∨ t = .right ∨ t = .outer)
+    (hkl : ∀ c ∈ lk, c ∈ ls) (hkr : ∀ c ∈ rk, c ∈ rs)
     (hn : NoNullKeys lk L) (hov : PandasSem.overlap (coalesced lk rk) ls rs = []) :
-    PandasMerge.merge t lk rk ls rs L R = joinSpec t lk rk ls rs L R :=
-  pandas_merge_eq_spec ht hn hov
+    PandasMerge.merge t lk rk ls rs L R = .ok (joinSpec t lk rk ls rs L R) :=
+  pandas_merge_eq_spec ht hkl hkr hn hov
 
 theorem C12.pandas_null_keys_match_witness :
-    ¬ TableEq (PandasMerge.merge .inner ["k"] ["k"] ["k", "a"] ["k", "b"] [[("k", none), ("a", some 10)]] [[("k", none), ("b", some 20)]])
-              (joinSpec .inner ["k"] ["k"] ["k", "a"] ["k", "b"] [[("k", none), ("a", some 10)]] [[("k", none), ("b", some 20)]]) := by
+    ∃ out, PandasMerge.merge .inner ["k"] ["k"] ["k", "a"] ["k", "b"] [[("k", none), ("a", some 10)]] [[("k", none), ("b", some 20)]] = .ok out ∧
+      ¬ TableEq out (joinSpec .inner ["k"] ["k"] ["k", "a"] ["k", "b"] [[("k", none), ("a", some 10)]] [[("k", none), ("b", some 20)]]) := by
+  refine ⟨[[("k", none), ("a", some 10), ("b", some 20)]], by rfl, ?_⟩
   intro h
   have := h [("a", some 10), ("b", some 20)]
   revert this; decide
@@ -219,21 +221,21 @@ theorem C12.pandas_null_keys_match_witness :
 /-- pyarrow engine with equally named keys: inner and left joins are literally the spec, for all tables (null keys,
 duplicate keys and overlapping columns included) -/
 theorem C12.arrow_sem_eq_spec_same_keys (t : JoinType) (ht : t = .inner ∨ t = .left) (ks : List Col) (hks : ks ≠ [])
-    (ls rs : List Col) (L R : Table) :
+    (ls rs : List Col) (hkl : ∀ c ∈ ks, c ∈ ls) (hkr : ∀ c ∈ ks, c ∈ rs) (L R : Table) :
     ArrowMerge.merge t ks ks ls rs L R = .ok (joinSpec t ks ks ls rs L R) :=
-  arrow_inner_left_eq_spec ht hks ls rs L R
+  arrow_inner_left_eq_spec ht hks hkl hkr L R
 
-theorem C12.arrow_sem_right_same_keys (ks : List Col) (hks : ks ≠ []) (ls rs : List Col) (L R : Table)
-    (wfL : RowsWF L) (wfR : RowsWF R) :
+theorem C12.arrow_sem_right_same_keys (ks : List Col) (hks : ks ≠ []) (ls rs : List Col)
+    (hkl : ∀ c ∈ ks, c ∈ ls) (hkr : ∀ c ∈ ks, c ∈ rs) (L R : Table) (wfL : RowsWF L) (wfR : RowsWF R) :
     ∃ out, ArrowMerge.merge .right ks ks ls rs L R = .ok out ∧ TableEq out (joinSpec .right ks ks ls rs L R) :=
-  arrow_right_tableEq hks ls rs wfL wfR
+  arrow_right_tableEq hks hkl hkr wfL wfR
 
 /-- differently named single keys, RIGHT join: the left key column is lost and the helper column `mloda_right_index`
 leaks into the result -/
 theorem C12.arrow_right_diff_keys_witness :
     ∃ out, ArrowMerge.merge .right ["lk"] ["rk"] ["lk", "a"] ["rk", "b"] [[("lk", some 2), ("a", some 10)]] [[("rk", some 2), ("b", some 20)]] = .ok out ∧
       ¬ TableEq out (joinSpec .right ["lk"] ["rk"] ["lk", "a"] ["rk", "b"] [[("lk", some 2), ("a", some 10)]] [[("rk", some 2), ("b", some 20)]]) := by
-  refine ⟨_, rfl, ?_⟩
+  refine ⟨[[("a", some 10), ("rk", some 2), ("b", some 20), ("mloda_right_index", some 2)]], by rfl, ?_⟩
   intro h
   have := h [("lk", some 2), ("a", some 10), ("rk", some 2), ("b", some 20)]
   revert this; decide
